@@ -712,6 +712,30 @@ def enum_media(n, nbodies):
         yield case
 
 
+def enum_chain():
+    """Order clause on deeper shapes: two sources K0, K1, a merger K2 (either base order, optional own list), a
+    pass-through K3(K2) (no Media / Media = None / empty Media / extend=[K2] only), a third source K4 and a leaf K5 with
+    the bases K3 and K4 in either order (optional own list), over the files a.js, b.js: 4*4*2*3*4*4*2*2 = 6144
+    hierarchies, read leaf-first and base-first. (An intermediate flattening of K2's or K3's lists turns the tie-break
+    between independent lists into a constraint that contradicts K4's list.)"""
+    lists = [["a.js"], ["b.js"], ["a.js", "b.js"], ["b.js", "a.js"]]
+    passthrough = [None, "null", {}, {"extend": [2]}]
+    for l0, l1, o2, m2, m3, l4, o5, m5 in itertools.product(
+        lists, lists, ([0, 1], [1, 0]), (None, {"js": ["a.js"]}, {"js": ["b.js"]}), passthrough, lists, ([3, 4], [4, 3]), (None, {"js": ["a.js", "b.js"]})
+    ):
+        classes = [
+            {"bases": [], "media": {"js": l0}, "pairs": {}, "loc": "none"},
+            {"bases": [], "media": {"js": l1}, "pairs": {}, "loc": "none"},
+            {"bases": o2, "media": m2, "pairs": {}, "loc": "none"},
+            {"bases": [2], "media": m3, "pairs": {}, "loc": "none"},
+            {"bases": [], "media": {"js": l4}, "pairs": {}, "loc": "none"},
+            {"bases": o5, "media": m5, "pairs": {}, "loc": "none"},
+        ]
+        case = normalize({"classes": classes})
+        case["orders"] = [[[5, "media", 0]], [[3, "media", 0], [5, "media", 0]]]
+        yield case
+
+
 PAIR_OPTS = {
     "template": [None, ["i", 0], ["f", 0], ["b", 1, 1]],
     "js": [None, ["i", 1], ["f", 1]],
@@ -809,9 +833,19 @@ def case_strategy(pkg, n_orders=3):
         jsn = st.sampled_from(JS_POOL[:width])
         cssn = st.sampled_from(CSS_POOL[:width])
 
+        # "ordered" hierarchies: every declared list is a sub-sequence of one global order of the pool, so all lists
+        # are mutually consistent by construction and the order clause is judged on every class (deep chains with
+        # pass-through classes, where an intermediate flattening would turn a tie-break into a constraint)
+        ordered = draw(_w(st, (1, 2), (0, 3)))
+
         def names(elem, lo=0):
             k = draw(_w(st, (0, 1), (1, 4), (2, 6), (3, 4), (4, 2)))
             k = max(k, lo)
+            if ordered:
+                k = min(max(k, 1), 2, width)
+                lst = draw(st.lists(elem, min_size=k, max_size=k, unique=True))
+                pool = JS_POOL + CSS_POOL
+                return sorted(lst, key=pool.index)
             if draw(_w(st, (1, 6), (0, 1))):  # mostly duplicate-free lists (Hypothesis likes repeating elements)
                 k = min(k, width)
                 return draw(st.lists(elem, min_size=k, max_size=k, unique=True))
@@ -907,6 +941,8 @@ def plan(tier, seed, scale=1.0):
     for sh in range(sh_n["enum_pkg"]):
         specs.append({"kind": "enum_pkg", "shard": sh, "of": sh_n["enum_pkg"]})
     specs.append({"kind": "enum_edge", "shard": 0, "of": 1})
+    for sh in range(4):
+        specs.append({"kind": "enum_chain", "shard": sh, "of": 4})
     return specs
 
 
@@ -944,6 +980,8 @@ def run_shard(spec):
     if kind == "enum_edge":
         gen = itertools.chain.from_iterable(enum_edge(n) for n in (1, 2))
         return _run_enum(col, gen, spec, "enum_edge")
+    if kind == "enum_chain":
+        return _run_enum(col, enum_chain(), spec, "enum_chain")
     if kind == "hyp":
         part = "hyp_pkg" if spec["pkg"] else "hyp_flat"
 
